@@ -242,11 +242,11 @@ impl WorkerState for W {
                     match b % 4 {
                         3 => {
                             // a fresh package of its own: its last two owners (two clones of one handle) are dropped
-                            // on two threads at the same moment, twelve times over; whatever the compilations
+                            // on two threads at the same moment, four times over; whatever the compilations
                             // allocated is gone afterwards (the page accounting after this step says so)
                             if let Some(r) = pick(&st.runtimes, a) {
                                 let v = 1 + (b as i32 / 4) % 3;
-                                for round in 0..12 {
+                                for round in 0..4 {
                                     let rt = &st.runtimes[r].as_ref().unwrap().0;
                                     let mut pkg = match compile_version(rt, v) {
                                         Ok(p) => p,
@@ -258,19 +258,26 @@ impl WorkerState for W {
                                     };
                                     drop(pkg);
                                     let h2 = h1.clone();
-                                    let barrier = std::sync::Arc::new(std::sync::Barrier::new(2));
-                                    let b2 = barrier.clone();
-                                    let t = std::thread::spawn(move || {
-                                        b2.wait();
-                                        drop(h2);
-                                    });
-                                    barrier.wait();
-                                    drop(h1);
-                                    if t.join().is_err() {
-                                        return fail("thread-panicked", "the thread dropping the handle panicked".into(), &trace);
+                                    // a spin gate: both threads leave it within nanoseconds of each other
+                                    let ready = std::sync::Arc::new(std::sync::atomic::AtomicUsize::new(0));
+                                    let mut ths = Vec::new();
+                                    for h in [h1, h2] {
+                                        let ready = ready.clone();
+                                        ths.push(std::thread::spawn(move || {
+                                            ready.fetch_add(1, std::sync::atomic::Ordering::SeqCst);
+                                            while ready.load(std::sync::atomic::Ordering::SeqCst) < 2 {
+                                                std::hint::spin_loop();
+                                            }
+                                            drop(h);
+                                        }));
+                                    }
+                                    for t in ths {
+                                        if t.join().is_err() {
+                                            return fail("thread-panicked", "the thread dropping the handle panicked".into(), &trace);
+                                        }
                                     }
                                     if round == 0 {
-                                        trace.push(format!("12 x: compile(rt{r}, version {v}), get a handle, drop the package, drop two clones of the handle on two threads at once"));
+                                        trace.push(format!("4 x: compile(rt{r}, version {v}), get a handle, drop the package, drop two clones of the handle on two threads at once"));
                                     }
                                 }
                             }
